@@ -98,7 +98,18 @@ example : nlsfDecode cbNbMb [7, 10, -10, 10, -10, 0, 0, 4, -4, 10, 10] =
     `for (i = 0; inv_gain(a) == 0 && i < 16; i++)` either stops on a passing filter, or reaches
     `i = 15` where the chirp factor `65536 - (2 << 15)` is 0, which zeroes the 32-bit filter; the
     re-quantised all-zero filter has inverse gain 2^30 and passes.  A non-zero inverse gain is
-    at least `SILK_FIX_CONST(1/MAX_PREDICTION_POWER_GAIN, 30) = 107374` (bounded gain). -/
+    at least `SILK_FIX_CONST(1/MAX_PREDICTION_POWER_GAIN, 30) = 107374` (bounded gain).
+
+    CAVEAT (scope of "EVERY vector").  This is a statement about the MODEL `nlsf2a`, which computes
+    `a32_QA1[k] = -/+Qtmp - Ptmp` (NLSF2A.c:125-126) in unbounded integers.  The model equals the C
+    code only on inputs where that subtraction fits `opus_int32`:
+      * order 10: always (`nlsf2a_nowrap_d10`) — the statement transfers to the C function as is;
+      * order 16: only where `a32_QA1` fits 32 bits (hypothesis `hA` of `nlsf2a_nowrap_d16_partial`).
+        For UNORDERED in-range input it does not (`nlsf2a_d16_unordered_overflows`: signed overflow,
+        undefined behaviour in C), so for such input this theorem says nothing about the C code.
+        For ORDERED input (all the decoder and encoder ever pass) the fit is NOT proved either — it is
+        only searched (UBSan + 64-bit recomputation, worst value 0.7855·2^31) and listed under
+        UNPROVED.  So for order 16 the transfer to C rests on that search, not on a theorem. -/
 theorem nlsf2a_passes_stability (nlsf : List Int) (hd : nlsf.length = 10 ∨ nlsf.length = 16)
     (hr : ∀ e ∈ nlsf, 0 ≤ e ∧ e ≤ 32767) :
     ∃ a, nlsf2a nlsf = .ok a ∧ a.length = nlsf.length ∧ AllI16 a ∧
@@ -119,7 +130,14 @@ example : nlsf2a [100, 100, 100, 100, 100, 20000, 20000, 20000, 20000, 20000] =
     stabilised NLSFs), every interpolation factor 0..4 and either value of
     `first_frame_after_reset`: decoding succeeds, the NLSFs are spaced by `deltaMin`, and both the
     interpolated filter `PredCoef_Q12[0]` and the final filter `PredCoef_Q12[1]` fit int16 and pass
-    the stability test. -/
+    the stability test.
+
+    CAVEAT.  As for `nlsf2a_passes_stability`: a statement about the model, whose `silk_NLSF2A` step is
+    computed in unbounded integers.  For the NB/MB codebook (order 10) the model provably equals the C
+    code (`nlsf2a_nowrap_d10`, `nlsf_decode_nowrap`).  For the WB codebook (order 16) the NLSFs passed
+    to `silk_NLSF2A` are ordered (`nlsf_decode_ordered`; interpolation of ordered vectors is ordered),
+    but that `a32_QA1` then fits 32 bits is unproved (UNPROVED: `nlsf2a_nowrap_d16`; search + UBSan
+    only), so for order 16 the transfer of this theorem to the C code rests on that search. -/
 theorem decode_parameters_stable (cb : NlsfCB) (hcb : cb = cbNbMb ∨ cb = cbWb) (cb1 : Nat)
     (h1 : cb1 < cb.nVectors) (idx prev : List Int) (coef ffar : Int) (hlen : idx.length = cb.order)
     (hpl : prev.length = cb.order) (hpr : ∀ e ∈ prev, 0 ≤ e ∧ e ≤ 32767) (hc0 : 0 ≤ coef) (hc1 : coef ≤ 4) :
